@@ -649,6 +649,13 @@ class Evo:
                 tgt["since"] = since
                 tgt["deprecated"] = "no longer\r\nsupported, use \"x\""
             self.touched.add(st_["name"])
+            # marks on plain (non-union) type aliases as well: base, array and reference aliases
+            plain = [a for a in self.d["typeAliases"] if a["type"]["kind"] in ("base", "array", "reference") and not a["name"].startswith("LSP")]
+            for a in self.r.sample(plain, min(2, len(plain))):
+                a["proposed"] = True
+                if self.r.random() < 0.5:
+                    a["deprecated"] = "use the structured form"
+                self.log.append("E6 marks on type alias %s (%s)" % (a["name"], a["type"]["kind"]))
             # every mark at once on one node (marks must compose, not shadow each other)
             node["proposed"] = True
             node["deprecated"] = self.r.choice(["superseded", "use x\ninstead \"quoted\"", "no longer\r\nsupported"])
